@@ -141,7 +141,12 @@ def one_run(ctx, k, nfiles, debug_log):
             ctx.report("C17:audit-run-failed", "the monitored run did not complete",
                        {"kind": "counterexample", "input": {"files": {n: t.replace(root, "<ROOT>") for n, t in texts.items()}}, "implementation": err})
             return
-        bad = judge(res, before, after, root, debug_log)
+        # the log file is legitimate when the command line or a (valid, boolean) configuration value enables it
+        try:
+            cfg_log = json.loads(texts[".fortlsrc"]).get("debug_log") is True
+        except ValueError:
+            cfg_log = False
+        bad = judge(res, before, after, root, debug_log or cfg_log)
         ctx.extra["responses"] = ctx.extra.get("responses", 0) + res.get("responses", 0)
         if bad:
             ctx.report("C17:effect:%s" % bad[0][0], "indexing/querying evaluated text or touched the file system: %s" % (bad[0],),
